@@ -335,7 +335,19 @@ func init() {
 	generators["C03"] = genLedgerWith(c03)
 	c05 := base
 	c05.boundaryP, c05.hugeSupplyP, c05.injectP = 0.35, 0.4, 0.3
-	generators["C05"] = genLedgerWith(c05)
+	c05gen := genLedgerWith(c05)
+	generators["C05"] = func(r *prng, seed uint64, tier string) *Plan {
+		// one run in three is the API clause (purse bank / boundary product slice)
+		switch seed % 3 {
+		case 0:
+			return &Plan{Scenario: "c05bank", Cfg: Config{Nodes: 0}}
+		case 1:
+			if seed%2 == 0 {
+				return &Plan{Scenario: "c05bank", Cfg: Config{Nodes: -1}}
+			}
+		}
+		return c05gen(r, seed, tier)
+	}
 	c06 := base
 	c06.probeP, c06.truncP = 0.3, 0.5
 	generators["C06"] = genLedgerWith(c06)
@@ -345,6 +357,9 @@ func init() {
 	c09 := base
 	c09.fine = true
 	generators["C09"] = genLedgerWith(c09)
+	c08 := base
+	c08.fine, c08.truncP, c08.hugeSupplyP, c08.crashP, c08.noWaitP, c08.boundaryP = true, 0.6, 0.15, 0.08, 0.3, 0.1
+	generators["C08"] = genLedgerWith(c08)
 	c10 := base
 	c10.forbiddenP, c10.crashP = 0.3, 0.05
 	generators["C10"] = genLedgerWith(c10)
